@@ -2,10 +2,9 @@ CONSTANTS
   Procs = {"p1", "p2"}
   Systems <- Sys_all
   ProgSpace <- PS_quick
-SPECIFICATION FairSpec
+SPECIFICATION Spec
 INVARIANT TypeOK
 INVARIANT Inv_Lock
 INVARIANT Inv_Baton
 INVARIANT Inv_C20_KF
 PROPERTY Act_C20_KF
-PROPERTY Live_Done
